@@ -161,7 +161,8 @@ structure ItemOK (s : View) (indices seeds : List Nat) (pre : List TravItem) (t 
   fresh : ¬ SeenIn pre (t.2.1, t.1)
   edge : ∀ i, t.1 = some i → i ∈ indices ∧ t.2.2 = (s.op i t.2.1).getD t.2.1 ∧ IsTarget pre t.2.1
   start : t.1 = none → t.2.2 = t.2.1 ∧ t.2.1 ∈ seeds ∧
-    ∀ e, IsTarget pre e → ∀ k ∈ indices, EdgeDone pre k e
+    (∀ e, IsTarget pre e → ∀ k ∈ indices, EdgeDone pre k e) ∧
+    ∃ l1 l2, seeds = l1 ++ t.2.1 :: l2 ∧ ∀ x ∈ l1, IsTarget pre x
 
 def AllOK (s : View) (indices seeds : List Nat) : List TravItem → Prop
   | [] => True
@@ -315,7 +316,7 @@ theorem TInv.report {s : View} {indices seeds : List Nat} {acc : List TravItem} 
   · intro hmi
     have hmi : mi = none := hmi
     obtain ⟨h1, h2, h3⟩ := pr.seed hmi
-    refine ⟨by show travTarget s mi d = d; rw [hmi]; rfl, ?_, ?_⟩
+    refine ⟨by show travTarget s mi d = d; rw [hmi]; rfl, ?_, ?_, ?_⟩
     · obtain ⟨pre, hpre, _⟩ := inv.seeds_suffix
       show d ∈ seeds
       rw [hpre, h1]; simp
@@ -324,6 +325,8 @@ theorem TInv.report {s : View} {indices seeds : List Nat} {acc : List TravItem} 
       · exact h4
       · have := h3 (k, q) hq
         simp only at this; rw [this] at heq; cases heq
+    · obtain ⟨pre, hpre, hall⟩ := inv.seeds_suffix
+      exact ⟨pre, st1.seeds, by rw [hpre, h1], fun x hx => (seenIn_none_iff inv.allOK x).1 (hall x hx)⟩
   · intro e he k hk
     show _ ∨ ∃ q, (k, q) ∈ pushAll st1.todo indices _ ∧ e ∈ q
     obtain ⟨t, ht, hte⟩ := he
